@@ -103,7 +103,7 @@ def scanner_facts(fn: FunctionInfo, preallocated: bool) -> dict:
             tg = n.targets[0] if isinstance(n, ast.Assign) else n.target
             sepidx = tg.id if isinstance(tg, ast.Name) else None
     # (also in a private helper that the scanner hands the match to through namesake arguments: `return self.__consume(buffer, separator, sepidx, ...)`)
-    from sa.norm import nodes_inl, private_helper
+    from sa.norm import nodes_inl, private_helper, tuple_elts
     cands = []
     for n, owner in nodes_inl(fn):
         if owner is not fn:
@@ -116,7 +116,7 @@ def scanner_facts(fn: FunctionInfo, preallocated: bool) -> dict:
         if isinstance(n, (ast.Assign, ast.AnnAssign)) and getattr(n, "value", None) is not None:
             cands.append((n.value, owner))
         if isinstance(n, ast.Return) and n.value is not None:
-            cands += [(x, owner) for x in (list(n.value.elts) if isinstance(n.value, ast.Tuple) else [n.value])]
+            cands += [(x, owner) for x in tuple_elts(owner, n.value)]
         if isinstance(n, ast.Subscript) and isinstance(n.slice, ast.Slice):
             cands += [(x, owner) for x in (n.slice.lower, n.slice.upper) if x is not None]
     post_ok = False
